@@ -1,6 +1,6 @@
 /-
   C02 composition, stage C: what is PROVED of `DeliverProj`, and the run-level theorems that follow.
-    * `DeliverVisProj M p` - OPEN (a named Prop), narrower than `DeliverProj`: the projection of the `deliver` step for
+    * `DeliverVisProj M p` - (a named Prop; PROVED in Props/C02multiC2.lean, `deliverVisProj_holds`), narrower than `DeliverProj`: the projection of the `deliver` step for
       a set that holds SOMETHING of `p`.
     * `deliverProj_of_vis` - PROVED: `DeliverVisProj M p → DeliverProj M p` (a set that holds nothing of `p` is
       `proj_deliver_noneOfP_p`; no set at the bridge means no prepared answer, so no `deliver` step).
@@ -17,7 +17,7 @@ set_option linter.unusedVariables false
 namespace Props.C02sys
 open Model Model.Pipeline Model.PipelineN Model.BrokerProd Lemmas.C02sys
 
-/-- **the projection of the `deliver` step for a set that holds something of `p`** (OPEN) -/
+/-- **the projection of the `deliver` step for a set that holds something of `p`** (a named Prop; proved in Props/C02multiC2.lean) -/
 def DeliverVisProj (M : Nat) (p : Int) : Prop :=
   ∀ (sN sN' : SysN) (s : Sys) (w : Nat) (st : Bool) (sent : List Pipeline.Tok) (rest : List (List Pipeline.Tok)),
     WRel (BRp p) p sN s → (sN.wk w).bp.sets = sent :: rest → projL p sent ≠ [] →
